@@ -7,6 +7,7 @@ import ZbossModel.Props.C11
 #print axioms Zboss.Host.C11_trace
 #print axioms Zboss.Host.C11_contiguous
 #print axioms Zboss.Host.C11_no_fragment_after_end
+#print axioms Zboss.Host.C11_no_write_is_skipped
 #print axioms Zboss.Host.C11_any_schedule
 #print axioms Zboss.Host.C11_run_is_a_schedule
 #print axioms Zboss.Host.C11_no_write_while_ack_pending
